@@ -185,17 +185,30 @@ def run(ctx):
     # ---------------- concurrent lint plugins
     n_lint = 600 if thorough else 100
     lint_cases = []
+    for f in glob.glob(os.path.join(C.plugin_dir(), "falco-c18b*")):
+        os.remove(f)
     for b in range(n_lint):
         k = rng.choice([2, 3, 4])
         names, expect = [], []
         for j in range(k):
-            name = "c18b%dp%d" % (b % 64, j)
+            name = "c18b%dp%d" % (b, j)
             msgs = ["%s-diag%d" % (name, t) for t in range(rng.randint(1, 5))]
             C.write_plugin(name, msgs, sleep_ms=rng.choice([0, 0, 0, 2, 10]))
             names.append(name)
             expect += msgs
         vcl = "sub vcl_recv {\n" + "".join("  // @plugin: %s\n" % nm for nm in names) + '  set req.http.X-C18 = "1";\n}\n'
         lint_cases.append((vcl, expect, {"vcl": vcl, "procs": PROCS[b % 4]}))
+    cdir = os.path.join(V.VERIF, "corpus", "C18")
+    if os.path.isdir(cdir):
+        for fn in sorted(os.listdir(cdir)):
+            if fn.endswith(".json"):
+                cj = json.load(open(os.path.join(cdir, fn)))
+                expect = []
+                for name, msgs in cj["plugins"].items():
+                    C.write_plugin(name, msgs)
+                    expect += msgs
+                for procs in PROCS:
+                    lint_cases.insert(0, (cj["vcl"], expect, {"vcl": cj["vcl"], "procs": procs}))
     lrep = V.run_batch([race, "conc-lint"], [json.dumps(c[2]) for c in lint_cases], hang_s=120, env=env)
     lint_ok = diag_total = 0
     for (vcl, expect, d), lr in zip(lint_cases, lrep):
